@@ -97,7 +97,8 @@ namespace nmtools::view
     template <typename array_t, typename...slices_t>
     constexpr auto slice(const array_t& array, slices_t...slices)
     {
-        auto slices_pack = nmtools_tuple{slices...};
+        // NOTE: spell out the element types, with CTAD a single tuple argument is copied instead of wrapped
+        auto slices_pack = nmtools_tuple<slices_t...>{slices...};
         return apply_slice(array,slices_pack);
     } // slice
 } // namespace nmtools::view
